@@ -160,6 +160,10 @@ fn hex_dec(tok: &str) -> Option<String> {
     String::from_utf8(hex_dec_bytes(tok)?).ok()
 }
 
+pub fn hash_pub<T: Hash>(x: &T) -> u64 {
+    hash_of(x)
+}
+
 fn hash_of<T: Hash>(x: &T) -> u64 {
     let mut h = DefaultHasher::new();
     x.hash(&mut h);
